@@ -525,7 +525,7 @@ pub fn all_suites(thorough: bool) -> Vec<Suite> {
         // the same with a limit that admits the three records and not a byte more
         let mut lim = cfg;
         lim.max_memory = Some(3 * overhead + 65535 + 65536 + 100 * 1024 + 3 * 7);
-        v.push(suite("mem-bigkey-limit", lim, t, ops, d(3, 4)));
+        v.push(suite("mem-bigkey-limit", lim, t, ops, d(4, 5)));
     }
     let me = Cfg::memory();
     v.push(suite("mem-errors", me, error_tables(&me), error_ops(), d(3, 3)));
